@@ -44,7 +44,7 @@ CHECKS = {
             "Decides on all paths that formations only grow through the guarded replacement function, that the guard "
             "depends on the applicable limit / track count / current count, that the combined limit is absent only if "
             "both limits are absent (4-case table), that every start-depot decision consults capacity, and that flow "
-            "bounds use these quantities. Comparator direction and count arithmetic are not decided.", "5 C02"),
+            "bounds use these quantities. Count arithmetic is not decided.", "5 C02"),
     "C06": ("static analysis: guard recognition for usize arithmetic on cycle lengths (MIR dominators / control "
             "dependence), compiler-evaluated constant agreement, None-operand and strict-acceptance checks",
             "Decides three termination/no-panic clauses statically for all inputs: guarded arithmetic on "
@@ -54,7 +54,7 @@ CHECKS = {
             "Infinity-guard rules)",
             "Decides for every construction site of Schedule/Tour/Transition, on all paths, that caches are rebuilt "
             "together with the data they summarise, that no computed update is dropped, and that Distance deltas are "
-            "guarded against Infinity. The arithmetic of the deltas is not decided.", "5 C09"),
+            "guarded against Infinity. The values of the deltas are not decided (their signs and operand sides are, see below).", "5 C09"),
     "C12": ("static analysis: hand-back flow (slices), refusal decision slices, tie-consistency recogniser on "
             "normalised comparison operators",
             "Decides that insert_path returns exactly the spliced-out block, that removal refusals are decided on the "
@@ -68,7 +68,7 @@ CHECKS = {
             "classification, source sets of the from-scratch definitions",
             "Decides that each reported component is read from its own cache of the end-depot-aligned schedule, that "
             "the caches are rebuilt together with their data in every producer, and that the definitions use the "
-            "documented inputs. The arithmetic of deltas is not decided.", "5 C04"),
+            "documented inputs.", "5 C04"),
     "C05": ("static analysis: provenance of the replace_end_depot argument, unconditional-in-loop control dependence, "
             "stage-flow after the alignment, JSON field provenance",
             "Decides that every vehicle's new end depot derives from its cycle successor's start depot, unconditionally "
@@ -92,8 +92,7 @@ CHECKS = {
     "C15": ("static analysis: coupled/lost-update classification of Transition producers, constant agreement of the "
             "Infinity substitute, guarded arithmetic, objective order and strict acceptance",
             "Decides the structural bookkeeping conditions for all producers and the shape of the optimisation "
-            "(violation before counter, strictly improving, unlimited). Counter arithmetic and 3-opt slice surgery are "
-            "not decided.", "5 C15"),
+            "(violation before counter, strictly improving, unlimited). The values of the counters are not decided.", "5 C15"),
     "C16": ("static analysis: stage-flow (backward dependence slices over MIR of the two pipeline functions)",
             "Decides on all paths that each pipeline stage's result feeds the next stage's named operand up to the "
             "returned JSON, in server::solve_instance and its sibling internal::run.", "5 C16"),
@@ -102,6 +101,28 @@ CHECKS = {
             "Decides the route table, that the served router carries routes and layer in the right order, that the "
             "solve handler answers with solve_instance of its own body, and that no mutable state is shared. "
             "Interleavings, fault isolation and sockets are runtime properties and are not decided.", "5 C18"),
+}
+
+# additions after the mutation analysis (DESIGN §3.2 shape.py / formulas.py, §7.4): appended to technique and level text
+FORMULA = ("; expression shapes read off MIR by direct provenance (documented formulas, signed terms of incremental updates), small truth tables "
+           "by abstract interpretation, loop must-pass-through; reports are cross-checked on a second view with unknown helpers inlined")
+EXTRA_TEXT = {
+    "C01": " Also decided: the formula, forbid rule and depot-kind table of can_reach, the turnaround formula with its same-place test, the receiver type table.",
+    "C02": " Also decided: comparator direction of the guards, which limit the combined value is taken from, capacity_for capped by the total, no Ok before the capacity test.",
+    "C03": " Also decided: polarity of the dead-head listing and the two documented placements of a dead-head trip.",
+    "C04": " Also decided: the signs and operand sides of every incremental update (tour figures, schedule costs, transition totals and cycle counters), the maintenance-counter and idle-time formulas, unscaled indicators. Values are not decided.",
+    "C05": " Also decided: the successor formula (p+1 mod len) and that the initial clustering loses no vehicle.",
+    "C06": " Also decided: overflow capacity formula, connection bound is a max, arc directions, depot-kind table of can_reach, 3-opt operands and index order.",
+    "C07": " Also decided: formation seats/capacity getters, trip upper bound, the unserved cache rebuilt with the formations.",
+    "C08": " Also decided: the figures the levels compare are maintained with the right signs (tour, cost, transition rules shared with C09/C15) and handed over unscaled.",
+    "C09": " Also decided since §7.4: signs and operand sides of every delta (what leaves is subtracted, what comes is added), depot neighbours, the maintenance flag as a truth table, helper-maintained caches updated on every path. Values inside the position arithmetic of the segment helpers are not decided.",
+    "C12": " Also decided: bisection stop test and which node time each search reads, reference times, both halves of the gap-test guard, loop form of the walks.",
+    "C13": " Also decided: remove_segment guard, enumerate-before-filter in fit_path_into_tour, overwrite index of the overflow fallback.",
+    "C14": " Also decided: direction of all four arc kinds, connection bound/cost forms, decoder key provenance, zero-flow polarity, end depots decoded, spawning cost over all five rates.",
+    "C15": " Also decided since §7.4: cycle neighbours (p-1/p+1 with wrap tests, end/start depots), counter deltas with signs, total signs and clamping, 3-opt transfer operands, the four slices of the new cycle, index order i<j<k, lookup written on every path.",
+    "C16": " Also decided: maintenance_considered polarity, successor formula, transitions stored (not merged).",
+    "C17": " Also decided: network formulas and predicates (can_reach, turnaround, idle time, duration, Nowhere => Infinity, type compatibility), overflow capacity formula, loader completeness loops, zero-passenger substitution.",
+    "C18": " Also decided: body limit lifted, multi-threaded runtime, get_id answers for Nowhere, dead-head matrix loaded under its own indices.",
 }
 
 NA = {}
@@ -115,6 +136,8 @@ def main():
         if pid not in CHECKS:
             continue
         tech, text, ref = CHECKS[pid]
+        tech = tech + FORMULA
+        text = text + EXTRA_TEXT.get(pid, "")
         checks.append({
             "property_id": pid,
             "quick_cmd": "bin/check %s quick" % pid,
@@ -144,7 +167,7 @@ def main():
             "name": "rsslint",
             "path": "rsslint/ (rustc_private MIR exporter) + rss/ (dependence analysis and rules) + bin/check",
             "serves_properties": [c["property_id"] for c in checks],
-            "kind_free_text": "custom static analysis over rustc MIR: PDG slicing with inter-procedural summaries, "
+            "kind_free_text": "custom static analysis over rustc MIR: expression shapes and signed terms, truth tables by abstract interpretation, second (inlined) view; PDG slicing with inter-procedural summaries, "
                               "provenance classification, guard/constant recognisers, who-may-construct inventories",
         }],
         "checks": checks,
